@@ -22,6 +22,7 @@ func init() {
 	chk.RegisterWorker("c07faults", workC07Faults)
 	chk.RegisterWorker("c07seq", workC07Seq)
 	chk.RegisterWorker("c07cuts", workC07Cuts)
+	chk.RegisterWorker("c07types", workC07Types)
 }
 
 // c07Generic checks file membership, index, line/column, quote; wantTrace (nil = do not check, empty = no trace)
@@ -517,6 +518,28 @@ func workC07Cuts(w *run.W) {
 	}
 }
 
+// workC07Types: the rejected members of the type-graph family (errors found in one type while another is checked).
+func workC07Types(w *run.W) {
+	dir := workerDir(w)
+	defer os.RemoveAll(dir)
+	var idx int64
+	typeGraphDocs(1, func(name, text string) {
+		idx++
+		if !w.Mine(idx) || !w.Begin(name) {
+			return
+		}
+		defer w.End()
+		pr := impl.Single(text)
+		b := pr.Build(dir)
+		w.Count("cases", 1)
+		if b.Err == nil || b.Panic != nil {
+			return
+		}
+		w.Nontrivial(text)
+		c07Generic(w, "types", pr, b.Err, nil, true)
+	})
+}
+
 func runC07(c *chk.Ctx) {
 	fam := map[string]any{}
 	steps := []struct {
@@ -527,6 +550,7 @@ func runC07(c *chk.Ctx) {
 		{"c07faults", c07FaultParams{Budget: chk.Pick(c, 2, 3)}},
 		{"c07seq", c07SeqParams{Len: chk.Pick(c, 2, 3)}},
 		{"c07cuts", map[string]any{}},
+		{"c07types", map[string]any{}},
 	}
 	for _, s := range steps {
 		b0 := c.Counts()["cases"]
